@@ -40,6 +40,8 @@ class Interp2 : public nd::Interp {
 public:
 	std::vector<std::unique_ptr<Memory<UInt>>> mems;
 	std::map<std::string, size_t> memIdx;
+	std::vector<std::unique_ptr<Memory<Bit>>> bmems;
+	std::map<std::string, size_t> bmemIdx;
 	virtual void stmt(const std::vector<std::string> &t) override {
 		const std::string &op = t[0];
 		auto setU = [&](const std::string &n, const UInt &v) { auto p = std::make_shared<nd::Val>(); p->v.emplace<UInt>(v); b.vars[n] = p; };
@@ -56,6 +58,18 @@ public:
 			auto &m = *mems.at(memIdx.at(t[2]));
 			UInt x = m[asU(t[3])];
 			setU(t[1], x);
+		} else if (op == "memb") {      // memb NAME depth            (memory of single Bit words)
+			bmems.push_back(std::make_unique<Memory<Bit>>(std::stoull(t[2]), Bit{}));
+			bmems.back()->setName(t[1]);
+			bmemIdx[t[1]] = bmems.size() - 1;
+		} else if (op == "membwrite") { // membwrite MEM ADDR DATABIT [COND]
+			auto &m = *bmems.at(bmemIdx.at(t[1]));
+			if (t.size() > 4) { IF (asB(t[4])) m[asU(t[2])] = asB(t[3]); }
+			else m[asU(t[2])] = asB(t[3]);
+		} else if (op == "membread") {  // membread NAME MEM ADDR
+			auto &m = *bmems.at(bmemIdx.at(t[2]));
+			Bit x = m[asU(t[3])];
+			auto p = std::make_shared<nd::Val>(); p->v.emplace<Bit>(x); b.vars[t[1]] = p;
 		} else if (op == "tristate") { // tristate PINNAME DATA ENABLE READBACKNAME
 			UInt x = tristatePin(asU(t[2]), asB(t[3])).setName(t[1]);
 			setU(t[4], x);
